@@ -42,17 +42,19 @@ var ruleMatcher = map[string]string{
 var ruleOrder = []string{"nilptr", "expelled", "addrSet", "dsMap"}
 
 type H struct {
-	c      *vh.Ctx
-	res    *vh.Result
-	drv    *vh.Driver
-	es     []*entry
-	byName map[string]*entry
-	err    error
-	seen   map[string]int // failure de-duplication
-	quietF bool           // replay mode: collect messages instead of writing replays
-	msgs   []string
-	failed bool
-	maxAmp float64
+	c          *vh.Ctx
+	res        *vh.Result
+	drv        *vh.Driver
+	es         []*entry
+	byName     map[string]*entry
+	err        error
+	seen       map[string]int // failure de-duplication
+	quietF     bool           // replay mode: collect messages instead of writing replays
+	msgs       []string
+	failed     bool
+	maxAlloc   uint64
+	maxAllocIn int
+	maxAllocTy string
 }
 
 func (h *H) ask(l string) string {
@@ -226,7 +228,7 @@ func measure(f func()) uint64 {
 }
 
 const allocSlack = 1 << 20
-const allocFactor = 512
+const allocFactor = 64
 
 // typedCase runs one byte string through the real decoder of entry e and through the model.
 // wantVal/wantRe are set for the well-formed stream (the value the bytes were generated from).
@@ -235,9 +237,8 @@ func (h *H) typedCase(e *entry, bs []byte, label string, wantVal string, meas bo
 	var o goOut
 	if meas {
 		n := measure(func() { o = goDecode(e, bs) })
-		amp := float64(n) / float64(len(bs)+1)
-		if amp > h.maxAmp && n > allocSlack/4 {
-			h.maxAmp = amp
+		if n > h.maxAlloc {
+			h.maxAlloc, h.maxAllocIn, h.maxAllocTy = n, len(bs), e.name
 		}
 		if n > allocSlack+allocFactor*uint64(len(bs)) {
 			h.fail("oracle", "", "alloc "+e.name, fmt.Sprintf("exploration: decoding %d input bytes into %s allocated %d bytes (> %d + %d x input)", len(bs), e.name, n, allocSlack, allocFactor), []string{line})
@@ -657,7 +658,7 @@ func run(c *vh.Ctx) error {
 	// ---- (c) exploration of the message entry points -------------------------------------------------------------
 	h.hostile()
 
-	res.Extra["max_alloc_amplification_seen"] = fmt.Sprintf("%.1f", h.maxAmp)
+	res.Extra["max_alloc_seen"] = fmt.Sprintf("%d bytes allocated decoding %d input bytes into %s (alarm threshold %d + %d x input)", h.maxAlloc, h.maxAllocIn, h.maxAllocTy, allocSlack, allocFactor)
 	res.Extra["schemas"] = len(h.es)
 	res.Partial = append(res.Partial,
 		"panic-freedom and allocation bounds of the Go code are explored (recover + runtime.MemStats over the mutated/size-attack/random streams), not proved; the proved counterpart is decode_weight_le_length on the model",
